@@ -21,4 +21,11 @@ DirectChild(p,c)== Len(c) = Len(p) + 1 /\ Anc(p, c)
 TreeClosed(T)   == \A m \in T : \A p \in Parents(m) : p \in T
 
 SeqToSet(s)     == {s[i] : i \in DOMAIN s}
+
+\* Renaming of path components by a function rho on components (C14).  Every operator above is built from
+\* equality of components only, so it commutes with any INJECTIVE rho.
+RenName(rho, m)  == [i \in DOMAIN m |-> rho[m[i]]]
+RenNames(rho, S) == {RenName(rho, m) : m \in S}
+RenEdges(rho, I) == {<<RenName(rho, e[1]), RenName(rho, e[2])>> : e \in I}
+Injective(rho)   == \A x, y \in DOMAIN rho : rho[x] = rho[y] => x = y
 =============================================================================
